@@ -4,7 +4,20 @@ import derive_prop
 
 def run(ctx):
     res = derive_prop.run_for(ctx, "C07")
-    extra(ctx, res)
+    try:
+        extra(ctx, res)
+    except Exception as e:   # a generator restructured beyond what the G rules read: no verdict from them
+        from lin import Finding
+        res.add("C07.G", 1, [Finding("C07.G", "derive generator", "generator-level rules could not read the generator (%s) (undecided)" % type(e).__name__, "", undecided=True)])
+    # Verdict policy (as for C16): the per-entry comparison of the *generated* code with the reference semantics (KEYS / ARM /
+    # BUILD over the whole catalogue, incl. > 20-field and variant-order entries) does not depend on how the generator is
+    # written.  The generator-level rules G1-G3 extend it to all inputs only while they recognise the generator's shape; when
+    # the catalogue comparison is clean, their complaints are recorded as UNDECIDED.
+    cat_bad = any(not f.rule.startswith("C07.G") and not getattr(f, "undecided", False) for f in res.findings)
+    if not cat_bad:
+        for f in res.findings:
+            if f.rule.startswith("C07.G"):
+                f.undecided = True
     return res
 
 
